@@ -654,6 +654,19 @@ def main():
                             continue
                         chk.add(kernel_case, real_t=rt, name=name, shape=list(sh), view=view, options=opt)
                         n += 1
+    # generator history: the same generator called earlier in the process with other options / another precision, and
+    # its kernel used on another shape, must not influence the kernel generated later (per-process caches, shared closures)
+    for name in sorted(CASES):
+        c = CASES[name]
+        shs = shapes_for(c["min_shape"], True)
+        for oi, opt in enumerate(c["options"]):
+            others = [o for o in c["options"] if o != opt]
+            earlier = [{"options": o, "shape": list(shs[0])} for o in (others[:2] if chk.quick else others[:4])]
+            earlier.append({"_real_t": "float32", "shape": list(shs[0])})
+            if oi and chk.quick and len(c["options"]) > 2 and oi != len(c["options"]) - 1:
+                continue
+            chk.add(kernel_case, real_t="float64", name=name, shape=list(shs[-1]), view="contiguous", options=opt, _earlier=earlier)
+            n += 1
     from checks.c15 import instantiate_all_generators
 
     _GEN.update(instantiate_all_generators())
@@ -665,7 +678,7 @@ def main():
             chk.add(interpreter_vs_compiled, name=name, options=opt)
     chk.files = sorted({f"sopht/numeric/eulerian_grid_ops/{d}/{f}" for d in ("stencil_ops_2d", "stencil_ops_3d") for f in os.listdir(f"/repo/sopht/numeric/eulerian_grid_ops/{d}") if f.endswith(".py")})
     chk.bounds = [f"{len(CASES)} generators x option combinations; shapes from the minimal admissible size to +{1 if chk.quick else 2} per axis (non-cubic included)",
-                  f"views: {views}", f"precisions: {precisions}", "all array contents, prior output contents and scalar parameters are solver variables",
+                  f"views: {views}", f"precisions: {precisions}", "all array contents, prior output contents and scalar parameters are solver variables", "generator history: each generator is also exercised after earlier calls of itself with other options / the other precision / another shape in the same process",
                   "(b) loop region of every kernel of every generator for ALL sizes (sizes are integer solver variables)", "translator validation of the IR interpreter against the compiled kernels (guard, not deciding)"]
     chk.outside = ["shapes beyond the enumerated ones (values/frame part)", "strides inside the generated C beyond the exercised views", "rounding"]
     chk.assumptions = ["exact real arithmetic", "Brinkmann kernels: penalty >= 0 and indicator >= 0 (denominator 1 + lambda*chi > 0)",
